@@ -36,10 +36,15 @@ func (r nestedReport) String() string {
 	return fmt.Sprintf("%s at %s frames[%s]", r.Cond, r.Pos, strings.Join(fs, " "))
 }
 
-func runNested(name, src string, tro bool) nestedReport {
+func runNested(name, src string, tro bool, pre string) nestedReport {
 	env := el.MustEnv(el.Opts{})
 	if !tro {
 		env.Runtime.Debugger = el.Dormant{}
+	}
+	if pre != "" {
+		if p := env.LoadString("prelude.lisp", pre); p.Type == lisp.LError {
+			panic("harness: prelude: " + p.String())
+		}
 	}
 	v := env.LoadString(name, src)
 	var r nestedReport
@@ -75,6 +80,7 @@ var nestedWrappers = []struct{ id, pre, post string }{
 }
 
 type nestedKase struct {
+	Pre     string `json:"prelude,omitempty"` // definitions loaded separately: the inner source is then the failing form alone, at byte offset 0
 	Inner   string `json:"inner_source"`
 	Leaf    string `json:"leaf"`
 	Ctx     string `json:"context"`
@@ -88,11 +94,11 @@ func (k nestedKase) outer() string {
 }
 
 func nestedJudge(k nestedKase) (string, string) {
-	host := runNested("inner.lisp", k.Inner, k.TRO)
+	host := runNested("inner.lisp", k.Inner, k.TRO, k.Pre)
 	if !host.IsErr {
 		return "", ""
 	}
-	got := runNested("outer.lisp", k.outer(), k.TRO)
+	got := runNested("outer.lisp", k.outer(), k.TRO, k.Pre)
 	detail := fmt.Sprintf("inner source loaded by the host:   %s\nthe same source loaded from lisp:  %s", host, got)
 	if !got.IsErr || got.Cond != host.Cond {
 		return "nested-load:condition", detail
@@ -138,10 +144,17 @@ func nestedLoads(r *core.Run) {
 			if !ok {
 				continue
 			}
+			// the same failing expression ALONE in the inner source: the blamed form may start at byte offset 0
+			expr := leaves[li].src
+			if ci >= 0 {
+				expr = strings.Replace(contexts[ci].tpl, "HOLE", expr, 1)
+			}
+			pre := strings.Join(preludeForms, "\n")
 			for lo := range nestedLoaders {
 				for w := range nestedWrappers {
 					for _, tro := range []bool{false, true} {
 						ks = append(ks, nestedKase{Inner: b.Src, Leaf: b.Leaf, Ctx: b.Ctx, Loader: lo, Wrapper: w, TRO: tro})
+						ks = append(ks, nestedKase{Pre: pre, Inner: expr, Leaf: b.Leaf, Ctx: b.Ctx + "@offset0", Loader: lo, Wrapper: w, TRO: tro})
 					}
 				}
 			}
